@@ -431,14 +431,15 @@ func mkNodeRace(name string) c14Scenario {
 func mkMaxApps(name string) c14Scenario {
 	s := scnMaxAppsRestart("c14-" + name)
 	s.Prefix = []world.Op{op("NODE_ADD", "n1"), op("APP_ADD", "app1"), op("ASK", "a1"), op("SCHEDULE"), op("RELEASE", "a1"), op("APP_ADD", "app2"), op("ASK", "b1")}
-	return c14Scenario{Name: name, Scn: s, Threads: [][]world.Op{{op("SCHEDULE")}, {op("ASK", "a2")}, {op("TIMER_STATE", "app1")}}}
+	return c14Scenario{Name: name, Scn: s, Threads: [][]world.Op{{op("SCHEDULE")}, {op("ASK", "a2")}, {op("TIMER_STATE", "app1"), op("TIMER_STATE", "app1")}}}
 }
 
 // life cycle: completing timer || new ask for the same application || REST reads
 func mkLifecycle(name string) c14Scenario {
 	s := scnLifecycleLate("c14-" + name)
 	s.Prefix = append(s.Prefix, op("RELEASE", "a1"))
-	return c14Scenario{Name: name, Scn: s, Threads: [][]world.Op{{op("TIMER_STATE", "app1")}, {op("ASK", "a2")}, {op("REST")}}}
+	// the timer goroutine fires twice: a state timer that was armed again by what the first callback did runs as well
+	return c14Scenario{Name: name, Scn: s, Threads: [][]world.Op{{op("TIMER_STATE", "app1"), op("TIMER_STATE", "app1")}, {op("ASK", "a2")}, {op("REST")}}}
 }
 
 // user and group limits: scheduling cycle || reload to a document with other limits || release
